@@ -40,16 +40,23 @@ def _bootstrap_schema_migrations(conn: sqlite3.Connection) -> None:
     uv_row = cur.execute("PRAGMA user_version").fetchone()
     legacy_version = int(uv_row[0]) if uv_row else 0
 
-    cur.executescript(_SCHEMA_MIGRATIONS_DDL)
+    # Create the table and seed the legacy rows in one transaction: a table
+    # left behind without its seed rows would make the next run re-apply
+    # migrations the legacy database already has.
+    seed_sql = "".join(
+        "INSERT OR IGNORE INTO schema_migrations (package, version) "
+        f"VALUES ('server', {v});\n"
+        for v in range(1, legacy_version + 1)
+    )
+    try:
+        cur.executescript("BEGIN;\n" + _SCHEMA_MIGRATIONS_DDL + ";\n" + seed_sql)
+    except Exception:
+        if conn.in_transaction:
+            cur.execute("ROLLBACK")
+        raise
+    cur.execute("COMMIT")
 
     if legacy_version > 0:
-        # Seed rows for existing server migrations
-        for v in range(1, legacy_version + 1):
-            cur.execute(
-                "INSERT OR IGNORE INTO schema_migrations (package, version) VALUES (?, ?)",
-                ("server", v),
-            )
-        conn.commit()
         logger.debug(
             "Bootstrapped schema_migrations from PRAGMA user_version=%d", legacy_version
         )
